@@ -151,12 +151,12 @@ def spec_check(model, cases, iouts):
 
 def run(tier, seed, replay=None):
     rep = Report("C17", tier, seed)
-    ok, msg = gen_consts()
+    ok, msg = gen_consts("c17")
     cb = coq_build("Properties_C17")
     gate = coq_gate()
     rep.proof_cov(cb, "make -C coq Props/Properties_C17.vo && coqc Props/Properties_C17.v (Print Assumptions) ; grep gate")
     proof_ok = ok and cb["ok"] and not gate
-    model_build()
+    model_build("msg")
     bdir, err = nng_build("asan")
     if bdir is None:
         p = rep.replay_file("build_failed.txt", err)
